@@ -10,6 +10,7 @@ INVARIANT DisconnectStopsPdo
 INVARIANT HbPayloadIsState
 INVARIANT PdoPayloadCurrent
 INVARIANT RestartUsesCurrentId
+INVARIANT SyncRestartUsesCurrentId
 INVARIANT GenPrint
 
 CHECK_DEADLOCK FALSE
